@@ -142,6 +142,44 @@ void scen_ets(hx::Desc& d, const char* name) {
     for (auto& kv : addr) SIM_CHECK(seen.count(kv.second), "oracle:ets-visit", "element of fiber %d is not reached by iteration", kv.first);
     int sum = 0, n = 0; ets->combine_each([&](const Val& v) { sum += v.id; ++n; });
     SIM_CHECK(n == (int)expect && sum == (int)(expect * (expect - 1) / 2), "oracle:ets-visit", "combine_each visited %d elements (id sum %d), expected %zu", n, sum, expect);
+    // iteration in every step style: a drawn walk of the random-access iterator (dereferenced after every move) against
+    // index arithmetic over the order the plain ++ walk gave; a walk by "it += 1" must visit every element once as well
+    {
+        std::vector<const Val*> order;
+        for (auto it = ets->begin(); it != ets->end(); ++it) order.push_back(&*it);
+        long N = (long)order.size(), pos = 0;
+        auto it = ets->begin();
+        int moves = (int)sim::draw_range(0, 12, "ets_walk_moves");
+        std::string walk;
+        for (int m = 0; m < moves && N > 1; ++m) {
+            SIM_CHECK(&*it == order[(size_t)pos], "oracle:ets-visit", "iterator walk [%s ]: position %ld dereferences to another thread's element", walk.c_str(), pos);
+            int kind = (int)sim::draw(9, "ets_walk_kind");
+            long fwd = N - 1 - pos, back = pos;
+            long k = 1 + (long)sim::draw(3, "ets_walk_dist");
+            switch (kind) {
+            case 0: if (fwd >= 1) { ++it; pos += 1; walk += " ++"; } break;
+            case 1: if (back >= 1) { --it; pos -= 1; walk += " --"; } break;
+            case 2: if (fwd >= k) { it += k; pos += k; walk += hx::fmt(" +=%ld", k); } break;
+            case 3: if (back >= k) { it -= k; pos -= k; walk += hx::fmt(" -=%ld", k); } break;
+            case 4: if (fwd >= k) { it = it + k; pos += k; walk += hx::fmt(" it+%ld", k); } break;
+            case 5: if (back >= k) { it = it - k; pos -= k; walk += hx::fmt(" it-%ld", k); } break;
+            case 6: if (fwd >= k) { SIM_CHECK(&it[k] == order[(size_t)(pos + k)], "oracle:ets-visit", "iterator walk [%s ]: it[%ld] at position %ld is another thread's element", walk.c_str(), k, pos); walk += hx::fmt(" [%ld]", k); } break;
+            case 7: if (fwd >= 1) { auto old = it++; SIM_CHECK(&*old == order[(size_t)pos], "oracle:ets-visit", "it++ returned an iterator to another element"); pos += 1; walk += " it++"; } break;
+            default: if (fwd >= k) { std::advance(it, k); pos += k; walk += hx::fmt(" advance(%ld)", k); } else if (back >= k) { std::advance(it, -k); pos -= k; walk += hx::fmt(" advance(-%ld)", k); } break;
+            }
+            SIM_CHECK(&*it == order[(size_t)pos], "oracle:ets-visit", "iterator walk [%s ]: position %ld dereferences to another thread's element", walk.c_str(), pos);
+            SIM_CHECK(it - ets->begin() == pos, "oracle:ets-visit", "iterator walk [%s ]: distance from begin() is %ld, expected %ld", walk.c_str(), (long)(it - ets->begin()), pos);
+        }
+        std::set<const Val*> by_step;
+        long steps = 0;
+        for (auto j = ets->begin(); j != ets->end(); j += 1) { SIM_CHECK(by_step.insert(&*j).second, "oracle:ets-visit", "a walk by `it += 1` visits an element twice"); SIM_CHECK(++steps <= N, "oracle:ets-visit", "a walk by `it += 1` does not end"); }
+        SIM_CHECK((long)by_step.size() == N, "oracle:ets-visit", "a walk by `it += 1` visits %zu of %ld elements", by_step.size(), N);
+        const auto& cets = *ets;
+        long cn = 0; for (auto j = cets.begin(); j != cets.end(); ++j) { SIM_CHECK(&*j == order[(size_t)cn], "oracle:ets-visit", "const iteration differs from iteration at position %ld", cn); ++cn; }
+        SIM_CHECK(cn == N, "oracle:ets-visit", "const iteration visits %ld of %ld elements", cn, N);
+        long rn = 0; for (auto& v : ets->range()) { SIM_CHECK(&v == order[(size_t)rn], "oracle:ets-visit", "range() differs from iteration at position %ld", rn); ++rn; }
+        SIM_CHECK(rn == N, "oracle:ets-visit", "range() visits %ld of %ld elements", rn, N);
+    }
     delete ets;
 }
 
